@@ -1,0 +1,13 @@
+//go:build verif
+
+package recovery
+
+// VerifLocked reports whether the list mutex is held right now (C08: a gated save of the
+// checkpoints document is observed to keep every other list operation out).
+func (cl *CheckpointList) VerifLocked() bool {
+	if cl.mu.TryLock() {
+		cl.mu.Unlock()
+		return false
+	}
+	return true
+}
